@@ -16,7 +16,7 @@
 #include <tuple>
 
 #ifdef ADAPTAGRAMS_VERIF
-namespace topology { extern int verif_topology_phase; }
+namespace topology { extern int verif_topology_phase; extern int verif_topology_in_resize; }
 #endif
 
 using namespace cola;
@@ -158,7 +158,12 @@ struct TopoSession : Session {
             phase = topology::verif_topology_phase;
 #endif
             std::string file = strstr(f.file, "lib") ? strstr(f.file, "lib") : f.file;
-            if (file.find("libtopology") != std::string::npos) return assertSig(f) + fmt("/phase=%d", phase);
+            // a check that fails while applyResizes() is executing (hook H2) is attributed to the resize step
+            bool inResize = false;
+#ifdef ADAPTAGRAMS_VERIF
+            inResize = topology::verif_topology_in_resize != 0; topology::verif_topology_in_resize = 0;
+#endif
+            if (file.find("libtopology") != std::string::npos) return std::string(inResize ? "resize:" : "") + assertSig(f) + fmt("/phase=%d", phase);
             return assertSig(f);
         }
         catch (std::exception &e) { return "std::exception"; }
